@@ -324,8 +324,10 @@ def CSim.op (s : CSim) (tok : String) : Option CSim :=
     pure ({ s with cache := r.1 }.dump res)
   | 'w' :: m :: f :: d :: ':' :: best => do
     let mode ← parseMode? m
-    let full ← parseBool? (String.singleton f)
-    let due ← parseBool? (String.singleton d)
+    -- threshold digit: 1 (limit 0) and 2 (limit = usage, comparison is >=) reach it;
+    -- timer digit: 1 (long ago) and 3 (just over the interval, comparison is >) are due
+    let full ← if f == '1' || f == '2' then some true else if f == '0' || f == '3' then some false else none
+    let due ← if d == '1' || d == '3' then some true else if d == '0' || d == '2' then some false else none
     let best ← (String.ofList best).toNat?
     if flushNow mode full due best s.lastFlush then
       pure ({ s with cache := emptyCache, db := writeCache s.cache s.db, lastFlush := best }.dump "ok")
